@@ -333,14 +333,42 @@ func runC11(p *core.Program, r *core.Report) {
 		}
 		pos := p.InstrPos(ret)
 		r.Check(core.IsNilConst(ret.Results[0]), "R11.4", encName, "an unencodable token yields an error and no index", pos, "")
-		exact := false
-		for _, g := range core.Guards(ret.Block()) {
-			rel, ok := core.AsRel(g)
-			if !ok || unitOf(p, rel.X, 0) == "" {
-				continue
+		exactAt := func(b *ssa.BasicBlock) bool {
+			for _, g := range core.Guards(b) {
+				rel, ok := core.AsRel(g)
+				if !ok || unitOf(p, rel.X, 0) == "" {
+					continue
+				}
+				if k, isC := core.ConstInt(rel.Y); isC && ((rel.Op == token.GTR && k == 255) || (rel.Op == token.GEQ && k == 256)) {
+					return true
+				}
 			}
-			if k, isC := core.ConstInt(rel.Y); isC && ((rel.Op == token.GTR && k == 255) || (rel.Op == token.GEQ && k == 256)) {
+			return false
+		}
+		exact := exactAt(ret.Block())
+		if !exact {
+			// the error may have been produced earlier (a length helper expanded in place): every
+			// non-nil definition reaching the returned error must have been made under length > 255
+			if phi, isPhi := ret.Results[1].(*ssa.Phi); isPhi {
 				exact = true
+				n := 0
+				for i, e := range phi.Edges {
+					if core.IsNilConst(e) {
+						continue
+					}
+					n++
+					pred := phi.Block().Preds[i]
+					def := pred
+					if c, isC := e.(*ssa.Call); isC {
+						def = c.Block()
+					}
+					if !exactAt(def) && !exactAt(pred) {
+						exact = false
+					}
+				}
+				if n == 0 {
+					exact = false
+				}
 			}
 		}
 		r.Check(exact, "R11.4", encName, "the only rejection is length > 255", pos, "tokens of up to 255 characters must be encodable")
@@ -627,6 +655,53 @@ func byteUse(v ssa.Value, depth int) string {
 	return ""
 }
 
+// parityPhiMap: phi of two TokenType constants selected by idx%2 == par -> {par: type}.
+func parityPhiMap(phi *ssa.Phi) map[int64]int64 {
+	out := map[int64]int64{}
+	if core.NamedOf(phi.Type()) != core.ModulePath+".TokenType" || len(phi.Edges) != 2 {
+		return out
+	}
+	for i, e := range phi.Edges {
+		T, isC := core.ConstInt(e)
+		if !isC {
+			return map[int64]int64{}
+		}
+		pred := phi.Block().Preds[i]
+		var gs []core.Guard
+		gs = append(gs, core.Guards(pred)...)
+		for si, s := range pred.Succs {
+			if s == phi.Block() && len(pred.Succs) == 2 {
+				if g, ok := core.EdgeCond(pred, si); ok {
+					gs = append(gs, g)
+				}
+			}
+		}
+		for _, g := range gs {
+			if g.If.Block() != phi.Block().Idom() {
+				continue
+			}
+			rel, ok := core.AsRel(g)
+			if !ok {
+				continue
+			}
+			rem, ok := rel.X.(*ssa.BinOp)
+			if !ok || rem.Op != token.REM {
+				continue
+			}
+			par, isC := core.ConstInt(rel.Y)
+			if !isC {
+				continue
+			}
+			if rel.Op == token.EQL {
+				out[par] = T
+			} else if rel.Op == token.NEQ {
+				out[1-par] = T
+			}
+		}
+	}
+	return out
+}
+
 // checkAlternatingParity compares the parity->type map of isAlternatingTokens
 // with the decoder's.
 func checkAlternatingParity(p *core.Program, r *core.Report, dec *ssa.Function) {
@@ -644,6 +719,14 @@ func checkAlternatingParity(p *core.Program, r *core.Report, dec *ssa.Function) 
 		}
 		T, isC := core.ConstInt(bo.Y)
 		if !isC {
+			// compared with an "expected type" selected by the index parity
+			for _, side := range []ssa.Value{bo.X, bo.Y} {
+				if phi, isPhi := side.(*ssa.Phi); isPhi {
+					for par, t := range parityPhiMap(phi) {
+						encMap[par] = t
+					}
+				}
+			}
 			return
 		}
 		for _, g := range core.Guards(bo.Block()) {
@@ -667,47 +750,11 @@ func checkAlternatingParity(p *core.Program, r *core.Report, dec *ssa.Function) 
 	decMap := map[int64]int64{}
 	core.Instrs(dec, func(in ssa.Instruction) {
 		phi, ok := in.(*ssa.Phi)
-		if !ok || core.NamedOf(phi.Type()) != core.ModulePath+".TokenType" || len(phi.Edges) != 2 {
+		if !ok {
 			return
 		}
-		for i, e := range phi.Edges {
-			T, isC := core.ConstInt(e)
-			if !isC {
-				return
-			}
-			pred := phi.Block().Preds[i]
-			// the edge taken under cond idx%2 == par (true) or its negation
-			var gs []core.Guard
-			gs = append(gs, core.Guards(pred)...)
-			for si, s := range pred.Succs {
-				if s == phi.Block() && len(pred.Succs) == 2 {
-					if g, ok := core.EdgeCond(pred, si); ok {
-						gs = append(gs, g)
-					}
-				}
-			}
-			for _, g := range gs {
-				if g.If.Block() != phi.Block().Idom() {
-					continue
-				}
-				rel, ok := core.AsRel(g)
-				if !ok {
-					continue
-				}
-				rem, ok := rel.X.(*ssa.BinOp)
-				if !ok || rem.Op != token.REM {
-					continue
-				}
-				par, isC := core.ConstInt(rel.Y)
-				if !isC {
-					continue
-				}
-				if rel.Op == token.EQL {
-					decMap[par] = T
-				} else if rel.Op == token.NEQ {
-					decMap[1-par] = T
-				}
-			}
+		for par, t := range parityPhiMap(phi) {
+			decMap[par] = t
 		}
 	})
 	if len(encMap) != 2 || len(decMap) != 2 {
